@@ -27,6 +27,26 @@ func zzStub_time_After(d time.Duration) <-chan time.Time {
 	return ch
 }
 
+// time.NewTimer (with Stop / Reset) is the same environment as time.After: the
+// harness owns the channel; Stop and Reset report "was still pending".
+func zzStub_time_NewTimer(d time.Duration) *time.Timer {
+	zzAfterLog = append(zzAfterLog, d)
+	ch := make(chan time.Time, 1)
+	if zzAfterBlock {
+		zzAfterChans = append(zzAfterChans, ch)
+	} else {
+		ch <- time.Time{}
+	}
+	return &time.Timer{C: ch}
+}
+
+func zzStub_time_Timer_Stop(t *time.Timer) bool { return true }
+
+func zzStub_time_Timer_Reset(t *time.Timer, d time.Duration) bool {
+	zzAfterLog = append(zzAfterLog, d)
+	return true
+}
+
 // zzCfg: an advertising interface configuration with symbolic header fields
 // and two static plugins.
 func zzCfg(name string) config.Interface {
